@@ -54,6 +54,9 @@ use std::{
 
 pub struct BitswapBox {
     rt: tokio::runtime::Runtime,
+    /// protocol-level session (`pnew` ...): the real event loop on a runtime with a paused clock
+    proto: Option<super::verif_c20_proto::Session>,
+    prt: tokio::runtime::Runtime,
 }
 
 impl BitswapBox {
@@ -61,6 +64,12 @@ impl BitswapBox {
         Self {
             rt: tokio::runtime::Builder::new_current_thread()
                 .enable_all()
+                .build()
+                .expect("runtime"),
+            proto: None,
+            prt: tokio::runtime::Builder::new_current_thread()
+                .enable_time()
+                .start_paused(true)
                 .build()
                 .expect("runtime"),
         }
@@ -538,6 +547,21 @@ impl VerifBox for BitswapBox {
                 }
             }
             ["message", items @ ..] => self.message(items).unwrap_or_else(bad),
+            ["pnew"] => {
+                // the old protocol task ends with its channels
+                self.proto = None;
+                let session = self.prt.block_on(async { super::verif_c20_proto::Session::create() });
+                self.proto = Some(session);
+                "ok".into()
+            }
+            [
+                "conn" | "disc" | "conndead" | "dialfail" | "view" | "subopen" | "subfail" | "plan" | "resp"
+                | "req" | "insub" | "inmsg" | "inbad" | "inbig" | "inclose" | "inreset",
+                ..,
+            ] => match self.proto.as_mut() {
+                Some(session) => self.prt.block_on(session.step(line)),
+                None => bad(),
+            },
             ["batches", v, codec, mh, dlen, sizes] =>
                 self.batches(v, codec, mh, dlen, sizes, "pres=0").unwrap_or_else(bad),
             ["batches", v, codec, mh, dlen, sizes, pres] =>
